@@ -1,6 +1,7 @@
 package sim
 
 import (
+	"strings"
 	"fmt"
 	"math/big"
 
@@ -90,6 +91,17 @@ func (m *c19Monitor) AfterTx(r *Run, ctx sdk.Context, tx *TxResult) {
 		}
 		if new(big.Int).Neg(dS).Cmp(dFee) != 0 || dFee.Sign() < 0 {
 			r.Violate(m.Name(), "sender-pays-value-plus-gas-used-times-price", "failed-before-evm", fmt.Sprintf("%s failed before execution (%s): sender delta %s, fee collector delta %s", desc, firstN(tx.Resp.Log, 100), dS, dFee))
+			return
+		}
+		if used > 0 && strings.Contains(tx.Resp.Log, "block gas meter") {
+			// executed, then discarded because the BLOCK gas meter ran out: the ante handler's
+			// purchase of the whole gas limit stays, the refund of the unused gas is discarded
+			// with the message's state
+			if _, rem := new(big.Int).QuoRem(dFee, new(big.Int).SetUint64(used), new(big.Int)); rem.Sign() != 0 {
+				if r.Violate(m.Name(), "unused-gas-refunded-when-block-gas-meter-runs-out", "pays-gas-limit", fmt.Sprintf("%s: the block gas meter ran out after the execution (reported gas used %d); the sender paid %s = gas limit x price, nothing was refunded", desc, used, dFee)) {
+					return
+				}
+			}
 			return
 		}
 		if used > 0 {
